@@ -4,7 +4,9 @@ go 1.23
 
 require (
 	github.com/deckarep/golang-set v1.7.1
+	github.com/golang/protobuf v1.5.2
 	github.com/idena-network/idena-go v0.0.0
+	github.com/klauspost/compress v1.15.5
 	github.com/pkg/errors v0.9.1
 	github.com/tendermint/tm-db v0.6.7
 	golang.org/x/net v0.0.0-20220630215102-69896b714898
@@ -27,7 +29,6 @@ require (
 	github.com/go-logr/stdr v1.2.2 // indirect
 	github.com/go-stack/stack v1.8.1 // indirect
 	github.com/gogo/protobuf v1.3.2 // indirect
-	github.com/golang/protobuf v1.5.2 // indirect
 	github.com/golang/snappy v0.0.4 // indirect
 	github.com/google/btree v1.0.0 // indirect
 	github.com/google/uuid v1.3.0 // indirect
@@ -57,7 +58,6 @@ require (
 	github.com/ipld/go-codec-dagpb v1.4.1 // indirect
 	github.com/ipld/go-ipld-prime v0.17.0 // indirect
 	github.com/jbenet/goprocess v0.1.4 // indirect
-	github.com/klauspost/compress v1.15.5 // indirect
 	github.com/klauspost/cpuid/v2 v2.0.14 // indirect
 	github.com/klauspost/pgzip v1.2.5 // indirect
 	github.com/libp2p/go-buffer-pool v0.1.0 // indirect
